@@ -9,7 +9,7 @@ Tie:    real py4hw netlists (random DAGs / cyclic graphs / register-broken loops
         wire value; the dumped design must satisfy the theorems' hypotheses (orderedb, single driver) and every row read
         from the real simulator must satisfy Spec.C04.settledb.
 Oracle: denotational value of every wire by recursion on the DAG (own semantics of the blocks) vs Wire.get()."""
-import ast, itertools, json, os, random, time, types
+import ast, itertools, json, os, random, subprocess, sys, time, types
 import common, netlist
 from common import quiet
 from props import c04_net as N
@@ -235,6 +235,11 @@ class Sweep:
         ctx = self.ctx
         if self.violated: return None          # one failing input is enough
         r = exercise(spec, rng, n_steps, want_dump)
+        return self.record(label, spec, r)
+
+    def record(self, label, spec, r):
+        ctx = self.ctx
+        if self.violated: return None
         self.cases.append((label, spec, r))
         for tbl, impl in r['sort_cases']:
             ctx.count(('sort', tuple(map(tuple, tbl)), impl[0]), nontrivial=len(tbl) > 1)
@@ -320,6 +325,36 @@ def random_sweep(ctx, sw, count, tagseed, with_dump=True, steps=4):
         if sw.violated: return
 
 
+def fresh_process_sweep(ctx, sw, n_proc, per_proc):
+    """part of the random stream in fresh interpreters: the first classes each process instantiates are a bare Logic container with a
+    port and/or a ports-only base class ('preamble'), or the netlist's own blocks in its instantiation order (class-hierarchy
+    families: behaviour added by a subclass, base instantiated before or after it)"""
+    env = dict(os.environ, PYTHONPATH=common.REPO + os.pathsep + os.path.join(common.VERIF, 'py'))
+    for p in range(n_proc):
+        jobs = []
+        for i in range(per_proc):
+            rng = random.Random(ctx.seed * 15485863 + p * 1009 + i)
+            flavour = ('dag', 'dag', 'cycle', 'dag', 'selfloop')[i % 5]
+            spec = N.rand_netlist(rng, rng.randint(2, 9), flavour, n_in=rng.randint(1, 3), n_regs=rng.choice([0, 1]), lib_only=(i % 2 == 0),
+                                  struct=(i % 4 == 3), itf=(i % 3 == 1), boxes=rng.choice([0, 1]), inherit=(i % 2 == 1))
+            if spec is None: continue
+            spec['preamble'] = ('logic_port', 'stub_first', 'both', None)[p % 4]
+            if flavour == 'dag' and i % 3 == 0 and len(spec['order']) > 2: spec['split'] = [rng.randint(1, len(spec['order']) - 1)]
+            jobs.append(['fresh#%d.%d/%s/%s' % (p, i, spec['preamble'], flavour), spec, ctx.seed * 31 + p * 100 + i, 3])
+        pr = subprocess.run([sys.executable, '-W', 'ignore', os.path.join(common.VERIF, 'py', 'props', 'c04_fresh.py')], input=json.dumps(jobs),
+                            capture_output=True, text=True, env=env, timeout=600)
+        line = [l for l in pr.stdout.split('\n') if l.startswith('@@RESULT ')]
+        if pr.returncode != 0 or not line:
+            sw.tie_broken = sw.tie_broken or {'what': 'the fresh-interpreter run of netlist histories failed', 'stderr': pr.stderr[-1500:]}
+            continue
+        for (label, spec, _, _), r in zip(jobs, json.loads(line[0][len('@@RESULT '):])):
+            r['sort_cases'] = [(tbl, tuple(impl)) for tbl, impl in r['sort_cases']]
+            r['problems'] = [tuple(x) for x in r['problems']]; r['dump'] = None
+            sw.record(label, spec, r)
+            if sw.violated: return
+    ctx.notes['fresh_interpreter_processes'] = n_proc
+
+
 def exhaustive_sweep(ctx, sw, quick):
     plan = ([(1, True, False), (2, True, False), (3, False, False), (4, False, True)] if quick else
             [(1, True, False), (2, True, False), (3, True, False), (4, False, False), (5, False, True)])
@@ -397,6 +432,9 @@ def run(ctx):
     if not sw.violated:
         random_sweep(ctx, sw, 140 if ctx.quick else 1200, 1, with_dump=not missing)
         ctx.log('random netlists driven on the real simulator')
+        if not sw.violated:
+            fresh_process_sweep(ctx, sw, 4 if ctx.quick else 16, 8 if ctx.quick else 20)
+            ctx.log('netlist histories driven in fresh interpreter processes')
         if not sw.violated: sw.check_model('C04_random')
         ctx.log('random netlists compared with the models in Coq')
     if not sw.violated:
